@@ -38,6 +38,7 @@ type Hist struct {
 
 	sentSeen     int
 	monitors     []func(h *Hist) // run after every step
+	inDowntime   bool            // a node is down and its peer is taking steps
 	hangReported bool
 	stop         bool            // a monitor hit a known finding: stop checking this case
 	startedAt    map[string]int  // swap id -> op index
@@ -61,6 +62,7 @@ type HistCfg struct {
 	NoInitialSwap bool
 	SlowPays      bool // payment calls that block longer than the retry budget
 	PeerMoves     bool // the counterparty of a live swap sends cancel / a useless coop_close at any point
+	Eager         bool // per history: watches / notifiers registered for a past event call back at once on their own goroutine
 	Weights       map[string]int
 }
 
@@ -97,6 +99,10 @@ func newHist(t *rapid.T, cfg HistCfg) *Hist {
 	}
 	if err := h.B.Boot(); err != nil {
 		t.Fatalf("boot: %v", err)
+	}
+	if cfg.Eager && rapid.Bool().Draw(t, "eagerCallbacks") {
+		h.A.Eager, h.B.Eager = true, true
+		h.class("eager-callbacks")
 	}
 	sim.LogReset()
 	return h
@@ -189,11 +195,28 @@ func (h *Hist) handleCrash(n *sim.Node, crashed bool) {
 
 func (h *Hist) reboot(n *sim.Node, deliverBeforeRecover bool) {
 	// the chains keep moving while the node is down
-	if db := rapid.SampledFrom([]uint32{0, 0, 0, 1, 3, 30}).Draw(h.T, "blocksWhileDown"); db > 0 {
+	down := []uint32{0, 0, 0, 1, 3, 30}
+	if h.Cfg.BigMines || h.Cfg.Eager {
+		// a long downtime: a csv (1008, legacy Liquid 60, Liquid 10080) matures while the node is away
+		down = append(down, 61, 1009, 10081)
+	}
+	if db := rapid.SampledFrom(down).Draw(h.T, "blocksWhileDown"); db > 0 {
 		chain := rapid.SampledFrom(h.Cfg.Chains).Draw(h.T, "downChain")
 		h.W.Mine(chain, db)
 		h.opf("mine-while-down(%s,%d)", chain, db)
 		h.class("blocks-while-down")
+		if db > 60 {
+			h.class("long-downtime")
+		}
+	}
+	if h.Cfg.Eager && !h.inDowntime {
+		// the rest of the world goes on while the node is down: its peer receives what was sent, sees
+		// confirmations, pays, claims
+		h.inDowntime = true
+		for i, k := 0, rapid.IntRange(0, 6).Draw(h.T, "peerStepsWhileDown"); i < k && !h.stop; i++ {
+			h.progressWithout(n)
+		}
+		h.inDowntime = false
 	}
 	if err := n.Boot(); err != nil {
 		h.T.Fatalf("reboot: %v", err)
@@ -525,6 +548,55 @@ func (h *Hist) actProgress() {
 				if !cw.Done {
 					h.W.Mine(chain, 1)
 					h.opf("mine(%s,1)", chain)
+					return
+				}
+			}
+		}
+	}
+}
+
+// progressWithout lets everything except the (dead) node down take one step.
+func (h *Hist) progressWithout(down *sim.Node) {
+	for _, m := range h.W.PendingMsgs() {
+		to := h.W.NodeById(m.To)
+		if to == nil || to == down || !h.alive(to) {
+			continue
+		}
+		crashed, _ := h.W.DeliverMsg(m)
+		h.opf("while-down: deliver(#%d,%d->%s) crashed=%v", m.Seq, m.Type, to.Name, crashed)
+		h.class("peer-step-while-down")
+		h.handleCrash(to, crashed)
+		return
+	}
+	for _, n := range h.nodes() {
+		if n == down || !h.alive(n) {
+			continue
+		}
+		if nts := n.TakePaymentNotifs(); len(nts) > 0 {
+			for _, nt := range nts {
+				crashed := n.DeliverPayment(nt)
+				h.opf("while-down: paid(%s,%s,%v) crashed=%v", n.Name, nt.SwapId[:6], nt.Type, crashed)
+				h.class("peer-step-while-down")
+				h.handleCrash(n, crashed)
+				if crashed {
+					return
+				}
+			}
+			return
+		}
+		if evs := n.DueWatcherEvents(); len(evs) > 0 {
+			ev := evs[0]
+			crashed, err := n.DeliverWatcherEvent(ev)
+			h.opf("while-down: watcher(%s,%s,%s) err=%v crashed=%v", n.Name, ev.Kind, ev.SwapId[:6], err != nil, crashed)
+			h.class("peer-step-while-down")
+			h.handleCrash(n, crashed)
+			return
+		}
+		for _, chain := range h.Cfg.Chains {
+			for _, cw := range n.ConfWaits[chain] {
+				if !cw.Done {
+					h.W.Mine(chain, 1)
+					h.opf("while-down: mine(%s,1)", chain)
 					return
 				}
 			}
